@@ -1377,6 +1377,7 @@ fn subst(v: &Value, top: &str) -> Value {
 }
 
 struct StageResult {
+    steps: usize, // scheduler steps taken (sched stages)
     calls: Vec<(usize, Vec<String>)>, // per participant: names of its counted calls (crash/fault indices)
     choices: Vec<usize>,       // participant chosen at each decision point
     enabled: Vec<Vec<usize>>,  // enabled participants at each decision point
@@ -1391,7 +1392,7 @@ enum Strategy<'a> {
 
 fn run_stage(stage: &Value, ctx: &mut RunCtx, actor: &str, job: &Value, strategy: Strategy) -> StageResult {
     let top = ctx.world.top.clone();
-    let mut res = StageResult { calls: vec![], choices: vec![], enabled: vec![], last_before: vec![] };
+    let mut res = StageResult { steps: 0, calls: vec![], choices: vec![], enabled: vec![], last_before: vec![] };
     if let Some(op) = stage["tracer_op"].as_str() {
         match op {
             "age_temp" => {
@@ -1493,6 +1494,7 @@ fn run_stage(stage: &Value, ctx: &mut RunCtx, actor: &str, job: &Value, strategy
     let mut last: usize = usize::MAX;
     let mut step: usize = 0; // counts scheduler steps (every resumption)
     let mut explicit_pos = 0usize;
+    let mut solo_steps = 0usize;
     loop {
         let enabled: Vec<usize> = tracees.iter().enumerate().filter(|(_, t)| t.alive && t.parked.is_some()).map(|(i, _)| i).collect();
         if enabled.is_empty() {
@@ -1534,8 +1536,15 @@ fn run_stage(stage: &Value, ctx: &mut RunCtx, actor: &str, job: &Value, strategy
                 // the solo participant finished its current operation (or died)
                 break;
             }
+            solo_steps += 1;
+            if solo_steps > 4000 {
+                let ev = json!({"e": "stuck", "p": tracees[choice].part, "opi": tracees[choice].opi, "api": tracees[choice].api, "steps": solo_steps});
+                ctx.emit(ev);
+                break;
+            }
         }
     }
+    res.steps = step;
     for t in tracees.iter_mut() {
         let frozen = t.alive;
         kill_tracee(t);
@@ -1633,7 +1642,7 @@ fn run_once(job: &Value, runno: u64, actor: &str, work: &str, out: &mut dyn Writ
         reset["snap"] = json!({"ents": {".": {}}, "inos": {}});
     }
     ctx.emit(reset);
-    let mut result = StageResult { calls: vec![], choices: vec![], enabled: vec![], last_before: vec![] };
+    let mut result = StageResult { steps: 0, calls: vec![], choices: vec![], enabled: vec![], last_before: vec![] };
     let stages = job["stages"].as_array().cloned().unwrap_or_default();
     let mut rng = rng;
     for st in stages.iter() {
@@ -1776,6 +1785,44 @@ fn main() {
                     match next {
                         Some(p) => prefix = p,
                         None => break,
+                    }
+                }
+            }
+            "solo" => {
+                // C06: from every scheduler step of a base schedule, run one participant alone.
+                let bases = ex["bases"].as_u64().unwrap_or(1);
+                let stride = ex["stride"].as_u64().unwrap_or(1).max(1) as usize;
+                let nparts = job["stages"].as_array().and_then(|st| st.iter().find(|s| s["mode"] == "sched").map(|s| s["parts"].as_array().map(|a| a.len()).unwrap_or(0))).unwrap_or(0);
+                'outer: for b in 0..bases {
+                    let mut rng = Rng(ex["seed"].as_u64().unwrap_or(1).wrapping_add(b));
+                    runs += 1;
+                    let (r, _) = run_once(&job, runs, &actor, &work, &mut out, &[], Some(&mut rng));
+                    let choices = r.choices.clone();
+                    let mut j = (b as usize) % stride;
+                    while j <= r.steps {
+                        for p in 1..=nparts {
+                            let mut j2 = job.clone();
+                            if let Some(stages) = j2["stages"].as_array_mut() {
+                                for st in stages.iter_mut() {
+                                    if st["mode"] == "sched" {
+                                        st["solo"] = json!({"after": j, "p": p});
+                                    }
+                                }
+                            }
+                            let mut cfg = j2["cfg"].clone();
+                            if !cfg.is_object() {
+                                cfg = json!({});
+                            }
+                            cfg["solo"] = json!({"after": j, "p": p});
+                            j2["cfg"] = cfg;
+                            j2["sched"] = json!(choices);
+                            runs += 1;
+                            run_once(&j2, runs, &actor, &work, &mut out, &choices, None);
+                            if runs >= max_runs {
+                                break 'outer;
+                            }
+                        }
+                        j += stride;
                     }
                 }
             }
